@@ -331,14 +331,6 @@ def formulas(prop):
     return {'name': 'formulas', 'problem': '; '.join(problems) if problems else None, 'sites': texts, 'changed': changed}
 
 
-if __name__ == '__main__':
-    import sys, json
-    for p in (sys.argv[1:] or sorted({s[0] for s in SITES})):
-        print(p, json.dumps(formulas(p), indent=1))
-    if not sys.argv[1:]:
-        print('presets', json.dumps(presets(), indent=1))
-
-
 # ---------------------------------------------------------------------------------------------------------------------------
 # GraphSpecs presets: the six constructors of src/graph_specs.rs and the spec literals the generators build their graphs with
 
@@ -410,3 +402,11 @@ def presets(ctx=None):
             'import GraphrsModel.Model.Store\nnamespace Graphrs\nnamespace Src\nnamespace Presets\n\n' + '\n'.join(defs) + '\n\nend Presets\nend Src\nend Graphrs\n')
     changed = write_if_changed(os.path.join(GEN, 'Presets.lean'), lean)
     return {'name': 'presets', 'problem': '; '.join(problems) or None, 'presets': {k: v for k, v in out.items()}, 'changed': changed}
+
+
+if __name__ == '__main__':
+    import sys, json
+    for p in (sys.argv[1:] or sorted({s[0] for s in SITES})):
+        print(p, json.dumps(formulas(p), indent=1))
+    if not sys.argv[1:]:
+        print('presets', json.dumps(presets(), indent=1))
